@@ -177,7 +177,13 @@ fn after_fn<'a>(
 ) -> LocalBoxFuture<'a, ()> {
     let key = hook_key("after", &sc.name);
     let (id, c) = w.map_or((usize::MAX, 0), |w| (w.id, w.counter));
-    log(format!("after_hook_reason [{}] {:?}", sc.name, std::mem::discriminant(fin)).replace("Discriminant", "D"));
+    let reason = match fin {
+        event::ScenarioFinished::BeforeHookFailed(..) => "BeforeHookFailed",
+        event::ScenarioFinished::StepPassed => "StepPassed",
+        event::ScenarioFinished::StepSkipped => "StepSkipped",
+        event::ScenarioFinished::StepFailed(..) => "StepFailed",
+    };
+    log(format!("after_hook_reason [{}] {reason}", sc.name));
     behave("after_hook", key, id, c).boxed_local()
 }
 
